@@ -1,15 +1,25 @@
+//! Checks on p2panda-spaces (C39) and p2panda-discovery (C30).
 use explorer::{Args, Report};
+
+mod c30;
+mod c39;
+mod clock;
 
 fn main() {
     let args = Args::parse();
     explorer::quiet_panics();
+    c39::install_panic_probe();
+    if let Err(e) = clock::self_test() {
+        eprintln!("MACHINERY-ERROR property={} clock seam self-test failed: {e}", args.property);
+        std::process::exit(2);
+    }
     let code = match args.property.as_str() {
-        // "Cxx" => cxx::run(Report::new(&args, "model_checking")),
+        "C30" => c30::run(Report::new(&args, "model_checking")),
+        "C39" => c39::run(Report::new(&args, "model_checking")),
         other => {
             eprintln!("vh-spaces: unknown property {other}");
             2
         }
     };
-    let _ = Report::new(&args, "model_checking");
     std::process::exit(code);
 }
